@@ -369,12 +369,83 @@ def large_leg(ns, res, rng, count):
         js.close()
 
 
+def typed_leg(ns, res, rng, count):
+    """ORDER BY / DISTINCT / DISTINCT COUNT / TOP over keys that arrive typed from a dataframe or a sqlite table (numeric order for numbers, also negative
+    and beyond 2**53) and as text from a CSV reader (text order unless the query converts)."""
+    import io
+    import sqlite3
+    import pandas as pd
+    from ..model import refcsv
+
+    class Sink(ns.engine.RBQLOutputWriter):
+        def __init__(self):
+            self.rows = []
+
+        def write(self, fields):
+            self.rows.append(list(fields))
+            return True
+
+    show = lambda v: '%s:%r' % (type(v).__name__, v)
+    for n in range(count):
+        front = ['pandas', 'sqlite', 'csv'][n % 3]
+        nrows = rng.choice([2, 3, 5, 8, 13])
+        ipool = rng.choice([[3, 10, -2, 9, 100], [2 ** 53, 2 ** 53 + 1, 2 ** 53 + 2, 5], [1, 2, 3]])
+        rows = [[rng.choice(ipool), rng.choice([0.5, -1.25, 10.0, 2.75, 9.5]), rng.choice(['b', 'a', 'B', '10', '9', 'ab'])] for _ in range(nrows)]
+        typed = front != 'csv'
+        cell = (lambda v: v) if typed else (lambda v: str(v))
+        R = [[cell(v) for v in r] for r in rows]
+        shapes = [
+            ('select a1, a3 order by a1', lambda: [[r[0], r[2]] for r in sorted(R, key=lambda r: r[0])]),
+            ('select a1, a2 order by a1 desc', lambda: [[r[0], r[1]] for r in reversed(sorted(R, key=lambda r: r[0]))]),
+            ('select a2, NR order by a2', lambda: [[r[1], i + 1] for i, r in sorted(enumerate(R), key=lambda ir: ir[1][1])]),
+            ('select a3, a1 order by a3, a1', lambda: [[r[2], r[0]] for r in sorted(R, key=lambda r: (r[2], r[0]))]),
+            ('select distinct a1', lambda: [[v] for v in dict.fromkeys(r[0] for r in R)]),
+            ('select distinct a3, a1 order by a1', lambda: [list(t) for t in dict.fromkeys((r[2], r[0]) for r in sorted(R, key=lambda r: r[0]))]),
+            ('select distinct count a3', lambda: [[sum(1 for r in R if r[2] == v), v] for v in dict.fromkeys(r[2] for r in R)]),
+            ('select top 2 a1 order by a1 desc', lambda: [[r[0]] for r in list(reversed(sorted(R, key=lambda r: r[0])))[:2]]),
+            ('select a1 order by %s limit 3' % ('a1 * -1' if typed else 'int(a1) * -1'), lambda: [[r[0]] for r in sorted(R, key=lambda r: -int(r[0]))][:3]),
+        ]
+        qtext, expf = shapes[(n // 3) % len(shapes)]
+        exp = expf()
+        if front == 'pandas':
+            df = pd.DataFrame({'k': pd.Series([r[0] for r in rows], dtype='int64'), 'f': pd.Series([r[1] for r in rows], dtype='float64'), 's': pd.Series([r[2] for r in rows], dtype='object')})
+            it = ns.pandas.DataframeIterator(df, normalize_column_names=True)
+            conn = None
+        elif front == 'sqlite':
+            conn = sqlite3.connect(':memory:')
+            conn.execute('CREATE TABLE t (k INTEGER, f REAL, s TEXT)')
+            conn.executemany('INSERT INTO t VALUES (?, ?, ?)', rows)
+            conn.commit()
+            it = ns.sqlite.SqliteRecordIterator(conn, 't')
+        else:
+            conn = None
+            it = ns.csv.CSVRecordIterator(io.StringIO(refcsv.write_table(R, ',', 'quoted', '\n'), newline=''), None, ',', 'quoted')
+        sink = Sink()
+        err = None
+        try:
+            ns.rbql.query(qtext, it, sink, [])
+        except Exception as e:
+            err = '%s: %s' % (type(e).__name__, str(e)[:150])
+        if conn is not None:
+            conn.close()
+        res.evaluations += 1
+        res.count('typed_order_distinct_runs:' + front)
+        res.nontrivial('typed-order', front, qtext, repr(rows))
+        got_s = None if err else [[show(v) for v in r] for r in sink.rows]
+        exp_s = [[show(v) for v in r] for r in exp]
+        if got_s != exp_s:
+            res.violation('py:typed-order-distinct-differs:' + front, '[py/%s] %s over %r -> %s ; expected %r' % (front, qtext, R, err or got_s, exp_s), {'leg': 'typed-order', 'front_end': front, 'query_text': qtext, 'rows': [[show(v) for v in r] for r in R]})
+        if n % 97 == 0:
+            res.sample({'leg': 'typed-order', 'front_end': front, 'query': qtext, 'rows': [[show(v) for v in r] for r in R][:4]})
+
+
 def plan(tier, seed):
     k = NSHARDS[tier]
     specs = [{'kind': 'bases', 'k': k, 'i': i, 'n': BASES[tier] // k} for i in range(k)]
     specs += [{'kind': 'unbounded', 'i': i, 'n': UNBOUNDED[tier]} for i in range(4)]
     specs += [{'kind': 'unbounded-stream', 'i': i, 'n': 60 if tier == 'quick' else 600} for i in range(2)]
     specs += [{'kind': 'large', 'i': i, 'n': 12 if tier == 'quick' else 150} for i in range(4)]
+    specs += [{'kind': 'typed', 'i': i, 'n': 270 if tier == 'quick' else 4000} for i in range(2 if tier == 'quick' else 6)]
     specs.append({'kind': 'js-values', 'n': 300 if tier == 'quick' else 5000})
     return specs
 
@@ -393,6 +464,9 @@ def run_shard(spec, res):
         return
     if spec['kind'] == 'large':
         large_leg(ns, res, rng, spec['n'])
+        return
+    if spec['kind'] == 'typed':
+        typed_leg(ns, res, rng, spec['n'])
         return
     js = common.JsLeg(res, PROPERTY, classify_js_only)
     try:
@@ -435,8 +509,8 @@ def run_shard(spec, res):
 def summarize(tier, seed, m):
     shapes = sorted(k[6:] for k in m['counters'] if k.startswith('shape:'))
     return {
-        'rule': 'base queries over tables with many duplicate keys: ORDER BY 1-2 keys (str / int / len / mixed) x ASC/DESC x {none, DISTINCT, DISTINCT COUNT} x {WHERE, JOIN, UNNEST}; for each base every bound n in 0..|out|+1 (TOP and LIMIT) is executed and compared with the prefix of the unbounded run and with the reference; ASC/DESC pairs compared as exact reverses; streaming bounded queries are run over an unbounded lazy input with a read budget equal to the position of the record producing output n+1. the CSV front-end over an endless byte stream (three policies, utf-8 / latin-1, LF / CRLF, header, comment lines) with a 256 KiB byte budget, and the command line fed an endless standard input (violation only after 48 MiB were consumed: logical budgets, no wall-clock verdicts), for bounded streaming SELECTs (UPDATE ignores LIMIT and is not a bounded query); tables of 257-2000 records over 3-12 distinct cell values under ORDER BY / DISTINCT / DISTINCT COUNT / WHERE combinations with bounds 0, 1, 2, 5, 50, 128, 255-257, 600 and around the size of the unbounded result; distinct_nontrivial = distinct bases with more than one output row + distinct unbounded runs.',
-        'required': ['large_table_cases', 'large_table_bound_runs', 'unbounded_stream_runs', 'stream_bytes_within_budget', 'cli_unbounded_stdin_runs', 'js_value_cases', 'py_cases', 'bound_runs', 'asc_desc_pairs', 'unbounded_runs', 'reads_within_budget', 'js_cases', 'js_unbounded_runs', 'js_reads_within_budget'],
+        'rule': 'base queries over tables with many duplicate keys: ORDER BY 1-2 keys (str / int / len / mixed) x ASC/DESC x {none, DISTINCT, DISTINCT COUNT} x {WHERE, JOIN, UNNEST}; for each base every bound n in 0..|out|+1 (TOP and LIMIT) is executed and compared with the prefix of the unbounded run and with the reference; ASC/DESC pairs compared as exact reverses; streaming bounded queries are run over an unbounded lazy input with a read budget equal to the position of the record producing output n+1. the CSV front-end over an endless byte stream (three policies, utf-8 / latin-1, LF / CRLF, header, comment lines) with a 256 KiB byte budget, and the command line fed an endless standard input (violation only after 48 MiB were consumed: logical budgets, no wall-clock verdicts), for bounded streaming SELECTs (UPDATE ignores LIMIT and is not a bounded query); tables of 257-2000 records over 3-12 distinct cell values under ORDER BY / DISTINCT / DISTINCT COUNT / WHERE combinations with bounds 0, 1, 2, 5, 50, 128, 255-257, 600 and around the size of the unbounded result; a typed leg: nine ORDER BY / DESC / two-part key / DISTINCT / DISTINCT COUNT / TOP shapes over records delivered by a dataframe, a sqlite table (numbers in numeric order, negative and beyond 2**53) and a CSV reader (text order unless the query converts), fields compared by value and type; distinct_nontrivial = distinct bases with more than one output row + distinct unbounded runs.',
+        'required': ['typed_order_distinct_runs:pandas', 'typed_order_distinct_runs:sqlite', 'typed_order_distinct_runs:csv', 'large_table_cases', 'large_table_bound_runs', 'unbounded_stream_runs', 'stream_bytes_within_budget', 'cli_unbounded_stdin_runs', 'js_value_cases', 'py_cases', 'bound_runs', 'asc_desc_pairs', 'unbounded_runs', 'reads_within_budget', 'js_cases', 'js_unbounded_runs', 'js_reads_within_budget'],
         'extra': {'shapes_seen': shapes},
         'assumptions': ['termination clause restated as bounded progress: reads <= position of the record producing output n+1; inputs on which output n+1 never exists are not used'],
     }
